@@ -340,8 +340,9 @@ fn reverse_proxy_part(rep: &Arc<Reporter>, args: &Args) {
             });
         }
         let mut id = 4000u64;
-        for allow_private in [false, true] {
-            for via in [Via::Direct, Via::MainHost] {
+        for (allow_private, via, claim) in [(false, Via::Direct, None), (false, Via::MainHost, None), (true, Via::Direct, None), (true, Via::MainHost, None),
+                                            (false, Via::Direct, Some("HTTP3")), (false, Via::MainHost, Some("HTTP2")), (true, Via::Direct, Some("HTTP1"))] {
+            {
                 id += 1;
                 let ctx = Arc::new(env::make_ctx(&dir, env::CtxOpts {
                     allow_private,
@@ -367,8 +368,9 @@ fn reverse_proxy_part(rep: &Arc<Reporter>, args: &Args) {
                 };
                 let (mut rd, mut wr) = tokio::io::split(client);
                 // the client tries to steer the request elsewhere through Host / absolute target
-                let head = b"GET /rp/chat?x=1 HTTP/1.1\r\nHost: 10.9.8.7:81\r\nUpgrade: websocket\r\nConnection: Upgrade\r\nX-Client-Header: abc\r\n\r\n";
-                let _ = wr.write_all(head).await;
+                // ... and to tell the origin which protocol it came in on
+                let head = format!("GET /rp/chat?x=1 HTTP/1.1\r\nHost: 10.9.8.7:81\r\nUpgrade: websocket\r\nConnection: Upgrade\r\nX-Client-Header: abc\r\n{}\r\n", claim.map(|c: &str| format!("X-Original-Protocol: {}\r\n", c)).unwrap_or_default());
+                let _ = wr.write_all(head.as_bytes()).await;
                 let _ = wr.write_all(b"PAYLOAD-1").await;
                 let (got, _) = read_until_quiet(&mut rd, Duration::from_millis(700), 1 << 20).await;
                 let _ = wr.write_all(b"PAYLOAD-2").await;
@@ -376,7 +378,7 @@ fn reverse_proxy_part(rep: &Arc<Reporter>, args: &Args) {
                 drop(wr);
                 tokio::time::sleep(Duration::from_millis(600)).await;
                 rep.evals(1);
-                rep.distinct(common::fnv(format!("rp|{}|{:?}", allow_private, via).as_bytes()));
+                rep.distinct(common::fnv(format!("rp|{}|{:?}|{:?}", allow_private, via, claim).as_bytes()));
                 let connects = vnet::take_connects();
                 let origin_saw = seen.lock().unwrap().clone();
                 let origin_text = origin_saw.first().map(|b| String::from_utf8_lossy(b).to_string()).unwrap_or_default();
@@ -393,6 +395,12 @@ fn reverse_proxy_part(rep: &Arc<Reporter>, args: &Args) {
                 let lower = origin_text.to_lowercase();
                 let ok_req = origin_text.starts_with("GET /rp/chat?x=1 HTTP/1.1\r\n") && lower.contains("x-original-protocol: http1") && lower.contains("x-client-header: abc") && lower.contains("upgrade: websocket");
                 if !ok_req { rep.violation("origin did not receive an equivalent HTTP/1.1 request with X-Original-Protocol", w.clone()); }
+                let head_only = lower.split("\r\n\r\n").next().unwrap_or("").to_string();
+                let xop: Vec<&str> = head_only.lines().filter(|l| l.starts_with("x-original-protocol:")).collect();
+                if xop.len() != 1 || xop[0].trim() != "x-original-protocol: http1" {
+                    let mut w2 = w.clone(); w2["client_claimed"] = json!(claim); w2["x_original_protocol_lines_at_origin"] = json!(xop);
+                    rep.violation("origin received an X-Original-Protocol value supplied by the client (not exactly one header with the endpoint's value)", w2);
+                } else if claim.is_some() { rep.tally("reverse proxy: client-supplied X-Original-Protocol replaced by the endpoint's value", 1); }
                 if !origin_text.contains("PAYLOAD-1") || !origin_text.contains("PAYLOAD-2") { rep.violation("bytes following the request were not relayed to the origin", w.clone()); }
                 if !(resp_text.starts_with("HTTP/1.1 101") && resp_text.contains("WELCOME") && resp_text.contains("PAYLOAD-1") && resp_text.contains("PAYLOAD-2") && resp_text.to_lowercase().contains("x-origin: yes")) {
                     rep.violation("origin's response and subsequent bytes were not relayed unchanged to the client", w.clone());
